@@ -40,6 +40,13 @@ def generate(rng, tier):
             n, d = rng.choice([(4, 0), (4, 3), (6, 2), (10, 0)])
             cases.append({"op": "reporter", "delays": profiles[name](nc), "n": n, "d": d, "profile": name})
     cases.append({"op": "reporter", "delays": [0] * 48, "n": 4, "d": 1, "profile": "48-chains"})
+    # a burn-in state whose f32 image is not finite (an f64 value beyond f32::MAX, +inf, NaN): the statistics see it, the returned
+    # draws do not; progress mode must still terminate and return run()'s draws
+    for bits, nm in [(C.float_to_f64_bits(1e39), "1e39"), (0x7FF0000000000000, "inf"), (0x7FF8000000000000, "nan")]:
+        for nc in ([1, 3] if tier == "quick" else [1, 2, 3, 7]):
+            d = rng.choice([2, 3, 5])
+            cases.append({"op": "reporter", "delays": [0] * nc, "n": rng.choice([4, 6]), "d": d, "profile": "spike-" + nm,
+                          "spike": {"at": rng.randint(1, d), "bits": str(bits), "chains": [rng.randrange(nc)]}})
     # (i) run vs run_progress
     kinds = [("mh", "f64"), ("mh", "f32"), ("gibbs", "f64"), ("hmc", "f32"), ("hmc", "f64"), ("hmc", "f64b32"), ("hmc", "f32b64"),
              ("nuts", "f32"), ("nuts", "f64"), ("nuts", "f64b32"), ("nuts", "f32b64")]
